@@ -101,6 +101,46 @@ def rule_only_references(ctx: Ctx):
            nontrivial=False)
 
 
+def rule_name_sources(ctx: Ctx):
+    """R-C19-9: the names a reference citation may be founded on are the full citation's parties and resolved case names -- nothing else that
+    happens to be stored in its metadata (an antecedent guess, a court, a year).  The keys the two reference extractors read with getattr come
+    from a table; every entry must be a party field or a resolved-name field."""
+    repo = ctx.repo
+    fm = repo.mod("find")
+    n = 0
+    for name in ("extract_pincited_reference_citations", "find_reference_citations_from_markup"):
+        fn = repo.need_func(f"find.{name}")
+        for g in [x for x in walk_local(fn) if isinstance(x, ast.Call) and dotted(x.func) == "getattr" and len(x.args) >= 2 and ".metadata" in norm(x.args[0])]:
+            key = g.args[1]
+            keys = None
+            src = norm(key)
+            if isinstance(key, ast.Constant):
+                keys = [key.value]
+            elif isinstance(key, ast.Name):
+                its = [x.iter for x in ast.walk(fn) if isinstance(x, (ast.For, ast.comprehension)) and isinstance(x.target, ast.Name) and x.target.id == key.id]
+                if len(its) == 1:
+                    it = its[0]
+                    src = norm(it)
+                    if isinstance(it, (ast.List, ast.Tuple)):
+                        keys = [e.value if isinstance(e, ast.Constant) else None for e in it.elts]
+                    elif isinstance(it, ast.Attribute) and isinstance(it.value, ast.Name) and it.value.id in repo.classes:
+                        for st in repo.classes[it.value.id].node.body:
+                            if isinstance(st, (ast.Assign, ast.AnnAssign)) and norm(st.targets[0] if isinstance(st, ast.Assign) else st.target) == it.attr \
+                                    and isinstance(st.value, (ast.List, ast.Tuple)):
+                                keys = [e.value if isinstance(e, ast.Constant) else None for e in st.value.elts]
+                    elif isinstance(it, ast.Name):
+                        for m_ in repo.modules.values():
+                            for st in m_.tree.body:
+                                if isinstance(st, ast.Assign) and norm(st.targets[0]) == it.id and isinstance(st.value, (ast.List, ast.Tuple)):
+                                    keys = [e.value if isinstance(e, ast.Constant) else None for e in st.value.elts]
+            n += 1
+            foreign = [k for k in (keys or [None]) if not (isinstance(k, str) and (k in ("plaintiff", "defendant") or k.startswith("resolved_case_name")))]
+            ctx.ob("R-C19-9", f"find.{name}/name-fields:{src[:40]}", keys is not None and not foreign,
+                   f"names are read from metadata fields {keys} (`{src[:50]}`); a reference citation must be founded on a party or a resolved case name, "
+                   f"not on {foreign}", node=g, mod=fm)
+    ctx.ob("R-C19-9", "find/name-reads", n >= 2, f"{n} getattr reads of name fields inspected", node=None, mod=fm, nontrivial=False)
+
+
 def rule_name_guards(ctx: Ctx):
     repo = ctx.repo
     fm = repo.mod("find")
@@ -380,6 +420,7 @@ def run(ctx: Ctx):
     ctx.guard(rule_only_references, ctx)
     ctx.guard(rule_filter, ctx)
     ctx.guard(rule_name_guards, ctx)
+    ctx.guard(rule_name_sources, ctx)
     ctx.guard(rule_rebasing, ctx)
     ctx.guard(rule_append_order, ctx)
     ctx.guard(rule_offset_maps, ctx)
